@@ -288,6 +288,19 @@ example : (get? (Spec.runCmds [] exampleHistory) 0).map (·.nodes) =
       some [(([1], [3]), ((8 : Int), [(2, 5)])), (([3], [1]), ((4 : Int), []))] := by
   decide
 
+/-- **The abstract object is "a set of nodes plus a map".**  For every reachable object: the node list of `abs s` has
+no duplicate, its hyperedge list has no duplicate key, every key is a canonical pair with non-empty, duplicate-free,
+disjoint sides, and every endpoint of every key is a node. -/
+theorem C02_abstract_wellformed (s : Store) (hr : Reachable s) :
+    (keys (abs s).nodes).Nodup ∧ (keys (abs s).edges).Nodup ∧
+    (∀ k ∈ keys (abs s).edges, KeyWF k ∧ ∀ n, (n ∈ k.1 ∨ n ∈ k.2) → n ∈ keys (abs s).nodes) := by
+  have h := C02_inv s hr
+  rw [abs_nodes_keys, abs_edges_keys]
+  refine ⟨h.nd_adjS, h.nd_edge, ?_⟩
+  intro k hk
+  obtain ⟨id, hid⟩ := (h.mem_keys_iff k).mp hk
+  exact ⟨h.key_wf id k hid, fun n hn => (isSome_get?_iff _ _).mp (h.nodes_in id k hid n hn)⟩
+
 /-- **Every query equals the query on the abstract object.**  For every reachable object `s` (any history, any
 prefix): nodes, nodes with metadata, membership, counts, hyperedges / hyperedges with metadata / weights under every
 order-size filter with and without `up_to`, membership / weight / metadata of one hyperedge (in any listing order),
